@@ -343,7 +343,7 @@ def handle (op : String) (args : List String) : String :=
   | "deck.fclean", [h] => match ofHex h with
     | some b => hx (fastClean b) | none => "bad-op"
   | "deck.clean", [k, h] => match parseCodeKws k, ofHex h with
-    | some kws, some b => hx (clean kws b) | _, _ => "bad-op"
+    | some kws, some b => hx (clean OpmVerif.Gen.RawConsts.cleanRetestsCodeKeyword kws b) | _, _ => "bad-op"
   | "deck.getline", [h] => match ofHex h with
     | some b => match getline b with
       | none => "none"
